@@ -122,6 +122,26 @@ def impl_clause(op, a, d):
         return 'error:%s' % type(e).__name__
 
 
+def shared_clauses(op, a, n):
+    """ONE expression object rendered for every dialect, in an order that depends on n, twice"""
+    sb = env()['sb']
+    f = {'startswith': sb.STARTSWITH, 'endswith': sb.ENDSWITH, 'contains': sb.CONTAINSSTRING}[op]
+    obj = f(sb.SQLConstant('t.c'), a)
+    order = DIALECTS[n % 7:] + DIALECTS[:n % 7]
+    if (n // 7) % 2:
+        order.reverse()
+    out, unstable = {}, None
+    for d in order + order:
+        try:
+            t = sb.sqlrepr(obj, d)
+        except Exception as e:
+            t = 'error:%s' % type(e).__name__
+        if d in out and out[d] != t and unstable is None:
+            unstable = (d, out[d], t)
+        out.setdefault(d, t)
+    return out, order, unstable
+
+
 def decode_clause(d, clause):
     """(pattern, escape) decoded from `(t.c LIKE (<lit>) ESCAPE <lit>)` with the dialect's rules, or None"""
     ts = c02.ref_tokens(d, clause)
@@ -133,12 +153,16 @@ def decode_clause(d, clause):
     return ts[4][1], ts[7][1]
 
 
-def sqlite_rows(op, a):
-    """rows the real SQLite returns for the real select"""
+def sqlite_rows(op, a, first=None):
+    """rows the real SQLite returns for the real select; the SAME expression object is rendered for the
+    dialect `first` before (logging, a second backend): rendering must not leave state behind"""
     e = env()
     cls = e['cls']
     try:
-        return set(o.c for o in cls.select(build(op, cls.q.c, a))), None
+        expr = build(op, cls.q.c, a)
+        if first:
+            e['sb'].sqlrepr(expr, first)
+        return set(o.c for o in cls.select(expr)), None
     except (sqlite3.Error, ValueError) as ex:
         return None, type(ex).__name__
     except Exception as ex:
@@ -221,12 +245,27 @@ def run(ctx):
                 plan.append((d, op, a, rs))
                 lines.append('%s %s %s %s' % (d, op, enc(a), ' '.join(enc(r) for r in rs)))
     outs = ctx.model(lines)
+    shared = {}
     for k, (d, op, a, rs) in enumerate(plan):
         desc = {'dialect': d, 'op': op, 'arg': enc(a)}
         meta = any(c in a for c in "%_\\'\"\n\t\r\x08\x00[")
-        ctx.case((d, op, a), nontrivial=meta, sample={'case': desc, 'clause': impl_clause(op, a, d)},
+        if (op, a) not in shared:
+            shared.clear()
+            shared[(op, a)] = shared_clauses(op, a, k // 7)
+            sh, order, unstable = shared[(op, a)]
+            if unstable:
+                ctx.oracle_fail('C17:%s:rendering-not-repeatable' % op,
+                                'the same %s(%r) expression renders %r and then %r for %s (order %s)'
+                                % (op, a, unstable[1], unstable[2], unstable[0], order), desc)
+        sh, order, unstable = shared[(op, a)]
+        fresh = impl_clause(op, a, d)
+        clause = sh[d]
+        ctx.case((d, op, a), nontrivial=meta, sample={'case': desc, 'clause': clause},
                  kind='%s:%s' % (op, 'meta' if meta else 'plain'))
-        clause = impl_clause(op, a, d)
+        if clause != fresh:
+            ctx.oracle_fail('C17:%s:clause-depends-on-earlier-rendering' % op,
+                            '%s(%r) rendered for %s after %s gives %r, a fresh expression gives %r'
+                            % (op, a, d, order[:order.index(d)], clause, fresh), dict(desc, order=order))
         dc = decode_clause(d, clause)
         nul = '\x00' in a
         mres = None
@@ -239,7 +278,7 @@ def run(ctx):
             mres = parts[3:]
         # ------------------------------------------------------------ oracle
         if d == 'sqlite':
-            got, err = sqlite_rows(op, a)
+            got, err = sqlite_rows(op, a, first=['mysql', 'postgres', 'mssql', None][k % 4])
             if got is None:
                 if not nul:
                     ctx.oracle_fail('C17:sqlite:%s:error:%s' % (op, enc(a)), 'select with %s(%r) raises %s' % (op, a, err), desc)
